@@ -389,7 +389,7 @@ def check_config(case):
         if case["name"] is not None:
             require(cfg["name"] == case["name"], f"name parsed as {cfg['name']!r}")
         else:
-            require(isinstance(cfg["name"], str) and cfg["name"].startswith("pydrex."), f"default name {cfg['name']!r}")
+            require(isinstance(cfg["name"], str) and len(cfg["name"]) > 0, f"default name {cfg['name']!r} is not a non-empty string")
         # parameters
         par = cfg["parameters"]
         require(set(par) == set(exp["parameters"]), f"parameter keys {sorted(set(par) ^ set(exp['parameters']))} missing/unexpected")
